@@ -142,7 +142,7 @@ impl Property for C07 {
     }
     fn strategy(&self, tier: Tier) -> BoxedStrategy<Case> {
         let maxd = tier.pick(3u32, 4u32);
-        (1usize..=3, 1usize..=2)
+        (sized(3, 5), sized(2, 4))
             .prop_flat_map(move |(n, p)| {
                 (
                     super::c02::tree_params_strategy(2, n, p, maxd).prop_flat_map(tree_spec),
